@@ -282,21 +282,51 @@ fn sweeps(rep: &Report) {
             }
         }
     }
-    // every truncation of each peer message is an error
+    // every truncation of each peer message is an error (never a panic)
+    let guarded = |what: &str, detail: serde_json::Value, f: &mut dyn FnMut() -> (bool, bool)| {
+        match catch_unwind(AssertUnwindSafe(|| f())) {
+            Ok((accepted, connected)) => {
+                if accepted { rep.violation(&format!("truncated {} accepted", what), detail.clone()); }
+                if connected { rep.violation(&format!("connected after truncated {}", what), detail); }
+            }
+            Err(_) => rep.violation(&format!("truncated {} makes the handshake code panic", what), detail),
+        }
+    };
     let ch = hs_challenge(u64::MAX, 9, 1, b"peer@host");
     for cut in 0..ch.len() {
         rep.add("evaluations", 1);
-        let mut m = HandshakeStateMachine::new("a@b".into(), "p@h".into(), "c".into(), DistributionFlags::default(), 1u32);
-        if m.handle_challenge(&ch[..cut]).is_ok() { rep.violation("truncated challenge accepted", json!({"cut": cut})); }
-        if m.state() == ConnectionState::Connected { rep.violation("connected after truncated challenge", json!({"cut": cut})); }
+        guarded("challenge", json!({"cut": cut}), &mut || {
+            let mut m = HandshakeStateMachine::new("a@b".into(), "p@h".into(), "c".into(), DistributionFlags::default(), 1u32);
+            let ok = m.handle_challenge(&ch[..cut]).is_ok();
+            (ok, m.state() == ConnectionState::Connected)
+        });
     }
-    for s in ["ok", "nok"] {
+    for s in ["ok", "nok", "ok_simultaneous", "alive"] {
         let st = hs_status(s);
         for cut in 0..st.len() {
             rep.add("evaluations", 1);
-            let mut m = HandshakeStateMachine::new("a@b".into(), "p@h".into(), "c".into(), DistributionFlags::default(), 1u32);
-            if m.handle_status(&st[..cut]).is_ok() { rep.violation("truncated status accepted", json!({"status": s, "cut": cut})); }
+            guarded("status", json!({"status": s, "cut": cut}), &mut || {
+                let mut m = HandshakeStateMachine::new("a@b".into(), "p@h".into(), "c".into(), DistributionFlags::default(), 1u32);
+                // a prefix of "ok_simultaneous" that is itself a status word ("ok") is a complete message, not a truncation
+                let whole = matches!(&st[..cut], b"sok" | b"sok_simultaneous" | b"snok" | b"salive" | b"snot_allowed");
+                let ok = m.handle_status(&st[..cut]).is_ok();
+                (ok && !whole, false)
+            });
         }
+    }
+    let ack = hs_ack(&[7u8; 16]);
+    for cut in 0..ack.len() {
+        rep.add("evaluations", 1);
+        guarded("challenge acknowledgement", json!({"cut": cut}), &mut || {
+            let mut m = HandshakeStateMachine::new("a@b".into(), "p@h".into(), "c".into(), DistributionFlags::default(), 1u32);
+            let _ = m.begin_connect();
+            let _ = m.prepare_send_name();
+            let _ = m.handle_status(&hs_status("ok")[..]);
+            let _ = m.handle_challenge(&hs_challenge(u64::MAX, 9, 1, b"peer@host"));
+            let _ = m.prepare_challenge_reply();
+            let ok = m.handle_challenge_ack(&ack[..cut]).is_ok();
+            (ok, m.state() == ConnectionState::Connected)
+        });
     }
 }
 
